@@ -570,3 +570,102 @@ def _classifier(fn, kind_of_first_arg):
 CLASSIFY = {"h_node_tokens": _classifier(h_node_tokens, lambda na: na),
             "h_node_symbytes": _classifier(h_node_symbytes, lambda na: na),
             "h_nodes_real": _classifier(h_nodes_real, lambda qa: _NODE_KIND_OF[_EXPECT_CLASS[REAL_NODE_KINDS[qa]]])}
+
+
+# ---------------------------------------------------------------------------------------------------------
+# 6. real immutable file nodes whose caps differ in ONE field (key, UEB hash, needed_shares, total_shares, size), and
+#    real mutable-file / directory nodes of the SAME object at different authority (write cap vs its own get_readonly()).
+#    Equal nodes must have equal capability strings (hence equal get_uri() and equal is_readonly()).
+# ---------------------------------------------------------------------------------------------------------
+_F_KS, _F_NS, _F_SZ = (1, 3), (3, 10), (0, 1234)
+
+
+def _chk_string(ik, iu, ikk, inn, isz):
+    return U.CHKFileURI(KEYS[ik], FPS[iu], _F_KS[ikk], _F_NS[inn], _F_SZ[isz]).to_string()
+
+
+def _imm_tables():
+    m1, m2 = _maker(), _maker()
+    t1, t2 = {}, {}
+    for ik in range(2):
+        for iu in range(2):
+            for ikk in range(2):
+                for inn in range(2):
+                    for isz in range(2):
+                        s = _chk_string(ik, iu, ikk, inn, isz)
+                        t1[(ik, iu, ikk, inn, isz)] = m1.create_from_cap(s)
+                        t2[(ik, iu, ikk, inn, isz)] = (m1.create_from_cap(s), m2.create_from_cap(s))
+    return t1, t2
+
+
+IMM_A, IMM_B = _imm_tables()
+
+
+def h_imm_fields(ik: int, iu: int, ikk: int, inn: int, isz: int, fld: int, same_maker: bool) -> bool:
+    """
+    pre: 0 <= ik <= 1 and 0 <= iu <= 1 and 0 <= ikk <= 1 and 0 <= inn <= 1 and 0 <= isz <= 1
+    pre: 0 <= fld <= 5
+    post: _ == True
+    """
+    ik, iu, ikk, inn, isz, fld = _conc(ik, 2), _conc(iu, 2), _conc(ikk, 2), _conc(inn, 2), _conc(isz, 2), _conc(fld, 6)
+    fa = [ik, iu, ikk, inn, isz]
+    fb = list(fa)
+    if fld > 0:
+        fb[fld - 1] = 1 - fb[fld - 1]          # the other node's cap differs in exactly this field
+    a = IMM_A[tuple(fa)]
+    b = IMM_B[tuple(fb)][0 if same_maker else 1]
+    if type(a) is not ImmutableFileNode or type(b) is not ImmutableFileNode:
+        raise hlib.HarnessError("NodeMaker built an unexpected node class")
+    sa, sb = _chk_string(*fa), _chk_string(*fb)
+    if a.get_uri() != sa or b.get_uri() != sb:
+        return "node does not report the capability string it was made from"
+    r = _self_checks(a)
+    if r is not True:
+        return r
+    return _node_pair(N_IMM, a, b, sa == sb)
+
+
+# write-cap kinds (indices of _real_cap) whose nodes can be diminished: SSK, MDMF, DIR2, DIR2-MDMF
+_ATT_KINDS = [2, 4, 11, 13]
+
+
+def _att_tables():
+    m1, m2 = _maker(), _maker()
+    out = {}
+    for q, k in enumerate(_ATT_KINDS):
+        for i in range(2):
+            w = REAL[k][i][0]
+            ro = w.get_readonly()
+            out[(q, i)] = (w.to_string(), ro.to_string(), m1.create_from_cap(w.to_string()),
+                           (m1.create_from_cap(ro.to_string()), m2.create_from_cap(ro.to_string())),
+                           (m1.create_from_cap(w.to_string()), m2.create_from_cap(w.to_string())))
+    return out
+
+
+ATT = _att_tables()
+
+
+def h_attenuated(q: int, i: int, other_ro: bool, same_maker: bool, swap: bool) -> bool:
+    """
+    pre: 0 <= q < len(_ATT_KINDS) and 0 <= i <= 1
+    post: _ == True
+    """
+    q, i = _conc(q, len(_ATT_KINDS)), _conc(i, 2)
+    (sw, sro, nw, nros, nws) = ATT[(q, i)]
+    a = nw
+    b = (nros if other_ro else nws)[0 if same_maker else 1]
+    sb = sro if other_ro else sw
+    if type(a) is not type(b) or type(a) not in (MutableFileNode, DirectoryNode):
+        raise hlib.HarnessError("NodeMaker built an unexpected node class")
+    if a.get_uri() != sw or b.get_uri() != sb:
+        return "node does not report the capability string it was made from"
+    if a.is_readonly() or b.is_readonly() != other_ro:
+        raise hlib.HarnessError("write / read authority of the sample nodes is not what the caps say")
+    if swap:
+        a, b = b, a
+    r = _self_checks(a)
+    if r is not True:
+        return r
+    if bool(a == b) and (a.get_uri() != b.get_uri() or a.is_readonly() != b.is_readonly()):
+        return "nodes of different authority (write cap vs read cap of the same object) compare equal"
+    return _node_pair(N_MUT if type(a) is MutableFileNode else N_DIR, a, b, sw == sb)
